@@ -1,12 +1,21 @@
-import Probe.Ref
+import Core.Ref
+set_option linter.unusedSectionVars false
 namespace Sodg
 
-theorem unread_eq_zero_iff (g : G) (ms : List Nat) :
+variable {L D : Type} [DecidableEq L] [Inhabited D]
+
+@[simp] theorem dat_collect (g : G L D) (b w : Nat) : dat (collect g b) w = dat g w := by
+  unfold dat collect; simp only [kill_get]; split <;> simp
+@[simp] theorem edg_collect (g : G L D) (b w : Nat) : edg (collect g b) w = edg g w := by
+  unfold edg collect; simp only [kill_get]; split <;> simp
+@[simp] theorem next_collect (g : G L D) (b : Nat) : (collect g b).next = g.next := rfl
+
+theorem unread_eq_zero_iff (g : G L D) (ms : List Nat) :
     unread g ms = 0 ↔ ∀ w ∈ ms, pers g w ≠ .stored := by
   simp [unread, List.filter_eq_nil_iff]
 
 /-- members of the reference group of `v` are exactly the member list of `v`'s slot -/
-theorem members_iff (g : G) (r : R) (h : Rel g r) (v : Nat) (hv : v ∈ r.ids) (k : Nat)
+theorem members_iff (g : G L D) (r : R L D) (h : Rel g r) (v : Nat) (hv : v ∈ r.ids) (k : Nat)
     (hk : r.grp v = some k) (w : Nat) : w ∈ r.members k ↔ w ∈ mem g (tag g v) := by
   have hb2 : 2 ≤ tag g v := by
     have := (h.same v hv v hv).1 ⟨by simp [hk], rfl⟩; exact this.1
@@ -27,8 +36,8 @@ theorem members_iff (g : G) (r : R) (h : Rel g r) (v : Nat) (hv : v ∈ r.ids) (
     have := (h.same v hv w hw).2 ⟨hb2, hmb.2.symm⟩
     rw [← this.2, hk]
 
-theorem rel_data (g g' : G) (r : R) (v : Nat) (out) (h : Rel g r) (hv : v ∈ r.ids)
-    (hd : data g v = some (g', out)) : Rel g' (r.data v) := by
+theorem rel_data (g g' : G L D) (r : R L D) (v : Nat) (out) (h : Rel g r) (hv : v ∈ r.ids)
+    (hd : data g v = some (g', out)) : Rel g' (r.data v) ∧ out = r.dat v := by
   have hvc := (h.alive v).1 hv
   have hinv' : Inv g' := inv_data g g' v out h.inv hvc.2 hd
   unfold data at hd
@@ -38,12 +47,14 @@ theorem rel_data (g g' : G) (r : R) (v : Nat) (out) (h : Rel g r) (hv : v ∈ r.
     cases hd
     have : r.unr v = false := by
       have := (h.unr v hv); cases hu : r.unr v <;> simp_all
-    simp [R.data, this]; exact h
+    have hd0 := h.data v hv
+    simp [R.data, this]; exact ⟨h, by rw [hd0]; simp [hp]⟩
   next hp =>
     cases hd
     have : r.unr v = false := by
       have := (h.unr v hv); cases hu : r.unr v <;> simp_all
-    simp [R.data, this]; exact h
+    have hd0 := h.data v hv
+    simp [R.data, this]; exact ⟨h, by rw [hd0]; simp [hp]⟩
   next hp =>
     have hu : r.unr v = true := (h.unr v hv).2 hp
     simp only at hd
@@ -55,13 +66,21 @@ theorem rel_data (g g' : G) (r : R) (v : Nat) (out) (h : Rel g r) (hv : v ∈ r.
       · subst hwv; simp [pers_setPers, hvc.1]
       · have hvw : ¬ v = w := fun e => hwv e.symm
         simp [upd_get, hwv, pers_setPers, hvw, this]
+    have hout : some (dat g v) = r.dat v := by rw [h.data v hv]; simp [hp]
+    have dat1 : ∀ w ∈ r.ids, r.dat w =
+        if pers (setPers g v .taken) w = .empty then none else some (dat (setPers g v .taken) w) := by
+      intro w hw
+      rw [h.data w hw]
+      by_cases hwv : v = w
+      · subst hwv; simp [pers_setPers, hvc.1, hp]
+      · simp [pers_setPers, hwv]
     split at hd
     next hb1 =>
       cases hd
       have hg : r.grp v = none := (h.ungr v hv).2 hb1
       simp only [R.data, hu, if_true, hg]
-      exact ⟨hinv', h.nd, by simpa using h.alive, by simpa using h.ungr, by simpa using h.same, unr1,
-        h.lt⟩
+      exact ⟨⟨hinv', h.nd, by simpa using h.alive, by simpa using h.ungr, by simpa using h.same, unr1,
+        h.lt, by simpa using h.edges, dat1, h.pos⟩, hout⟩
     next hb1 =>
       have hb2 : 2 ≤ tag g v := by omega
       have hlt := h.inv.taglt v hvc.1
@@ -79,10 +98,10 @@ theorem rel_data (g g' : G) (r : R) (v : Nat) (out) (h : Rel g r) (hv : v ∈ r.
       · cases hd
       next hnz =>
         -- the reference's "all read" test agrees with `cnt = 1`
-        have hall : ((({ r with unr := upd r.unr v false } : R).members k).all
+        have hall : ((({ r with unr := upd r.unr v false } : R L D).members k).all
               (fun w => !(upd r.unr v false w))) = true ↔ cnt g (tag g v) = 1 := by
           rw [List.all_eq_true]
-          have hm' : ∀ w, w ∈ ({ r with unr := upd r.unr v false } : R).members k ↔ w ∈ mem g (tag g v) := hmem
+          have hm' : ∀ w, w ∈ ({ r with unr := upd r.unr v false } : R L D).members k ↔ w ∈ mem g (tag g v) := hmem
           constructor
           · intro hA
             have : unread (setPers g v .taken) (mem g (tag g v)) = 0 := by
@@ -108,7 +127,7 @@ theorem rel_data (g g' : G) (r : R) (v : Nat) (out) (h : Rel g r) (hv : v ∈ r.
           cases hd
           simp only [R.data, hu, if_true, hk, hall.2 h1]
           -- collected
-          refine ⟨hinv', h.nd.filter _, ?_, ?_, ?_, ?_, ?_⟩
+          refine ⟨⟨hinv', h.nd.filter _, ?_, ?_, ?_, ?_, ?_, ?_, ?_, h.pos⟩, hout⟩
           · intro w
             simp only [List.mem_filter, decide_eq_true_eq, cap_collect, cap_decr, cap_setPers, tag_collect,
               mem_decr, mem_setPers, tag_decr, tag_setPers, ne_eq]
@@ -142,13 +161,15 @@ theorem rel_data (g g' : G) (r : R) (v : Nat) (out) (h : Rel g r) (hv : v ∈ r.
             simp only [List.mem_filter, decide_eq_true_eq] at hw
             simpa using unr1 w hw.1
           · intro w hw; simp only [List.mem_filter, decide_eq_true_eq] at hw; exact h.lt w hw.1
+          · intro w hw; simp only [List.mem_filter, decide_eq_true_eq] at hw; simpa using h.edges w hw.1
+          · intro w hw; simp only [List.mem_filter, decide_eq_true_eq] at hw; simpa using dat1 w hw.1
         next h1 =>
           cases hd
-          have : ¬ ((({ r with unr := upd r.unr v false } : R).members k).all
+          have : ¬ ((({ r with unr := upd r.unr v false } : R L D).members k).all
               (fun w => !(upd r.unr v false w))) = true := fun hA => h1 (hall.1 hA)
           simp only [R.data, hu, if_true, hk, this]
-          exact ⟨hinv', h.nd, by simpa using h.alive, by simpa using h.ungr, by simpa using h.same,
-            by simpa using unr1, h.lt⟩
+          exact ⟨⟨hinv', h.nd, by simpa using h.alive, by simpa using h.ungr, by simpa using h.same,
+            by simpa using unr1, h.lt, by simpa using h.edges, by simpa using dat1, h.pos⟩, hout⟩
 
 #print axioms rel_data
 end Sodg
